@@ -90,7 +90,8 @@ def bodyLoop (m : Media) : Nat → Nat → Nat → List Bytes → Option (List B
 
 /-- the pieces handed to the visitor, in order -/
 def bodyPieces (e : Entry) (m : Media) : Option (List Bytes) :=
-  (bodyLoop m (e.lastSector + 1 - e.startSector) e.startSector e.fileLength []).map List.reverse
+  if e.fileLength == 0 then some []      -- an empty file occupies no sectors: nothing is read
+  else (bodyLoop m (e.lastSector + 1 - e.startSector) e.startSector e.fileLength []).map List.reverse
 
 def readBody (e : Entry) (m : Media) : Option Bytes := (bodyPieces e m).map List.flatten
 
@@ -417,8 +418,10 @@ def freeLine (files : Int) (sectors : Int) (desc : String) : Bytes :=
 /-- `sectors_used` of cmd_free.cc -/
 def sectorsUsed (c : Catalog) : Nat :=
   c.entries.foldl (fun used e =>
-    let last := e.startSector + (e.fileLength / 256 + (if e.fileLength % 256 != 0 then 1 else 0))
-    if last > used then last else used) 2
+    if e.fileLength == 0 then used
+    else
+      let last := e.startSector + (e.fileLength / 256 + (if e.fileLength % 256 != 0 then 1 else 0))
+      if last > used then last else used) (dataSectorsReservedForCatalog c.fmt)
 
 def cmdFreeRender (c : Catalog) : Bytes :=
   let used := sectorsUsed c
@@ -443,57 +446,59 @@ def cmdFree (env : Env) (args : List Bytes) : CmdRes :=
 
 /-! ### space -/
 
-inductive SpaceRes | ok (gaps : List Nat) | outOfOrder | ub
+inductive SpaceRes | ok (gaps : List Nat) | outOfOrder
 
 /-- `maybe_gap` -/
 def maybeGap (gaps : List Nat) (last next : Nat) : Option (List Nat) :=
   if last > next then none else if next - last != 0 then some (gaps ++ [next - last]) else some gaps
 
+/-- entries of every catalogue with their position (catalogue, index), in
+    catalogue order; empty files play no part -/
+def spaceIndexed (cats0 : List (List Entry)) : List (Nat × Nat × Entry) :=
+  let cats := cats0.map (fun l => l.filter (fun e => e.fileLength != 0))
+  (cats.zipIdx).flatMap (fun (l, c) => (l.zipIdx).map (fun (e, i) => (c, i, e)))
+
+/-- the file with the lowest start sector (the first such in catalogue order) -/
+def spaceFirstFile (indexed : List (Nat × Nat × Entry)) : Option (Nat × Nat × Entry) :=
+  indexed.foldl (fun best x => match best with
+    | none => some x
+    | some b => if x.2.2.startSector < b.2.2.startSector then some x else some b) none
+
+/-- `start_sec_of_next` (after the repair: the next non-empty catalogue) -/
+def spaceNext (cats : List (List Entry)) (total c i : Nat) : Nat :=
+  if i > 0 then ((cats.getD c []).getD (i - 1) default).startSector
+  else
+    match ((cats.drop (c + 1)).filter (fun l => !l.isEmpty)).head? with
+    | some l => (l.getLast?.map (·.startSector)).getD total
+    | none => total
+
+/-- the `(last, next)` arguments of the successive `maybe_gap` calls, in the order
+    cmd_space.cc makes them: catalogues from last to first, entries from last to
+    first, the gap after the catalogue sectors inserted just before the lowest
+    file when that file is in the first catalogue, else at the very end -/
+def spacePairs (cats0 : List (List Entry)) (total catSectors : Nat) : List (Nat × Nat) :=
+  let cats := cats0.map (fun l => l.filter (fun e => e.fileLength != 0))
+  let indexed := spaceIndexed cats0
+  let firstFile := spaceFirstFile indexed
+  let initial : Nat × Nat := (catSectors, match firstFile with | some f => f.2.2.startSector | none => total)
+  let inFirst : Bool := match firstFile with | some f => f.1 == 0 | none => false
+  let body := indexed.reverse.flatMap fun (c, i, e) =>
+    (if (match firstFile with | some f => f.1 == c && f.2.1 == i && f.1 == 0 | none => false) then [initial] else []) ++
+    [(e.lastSector + 1, spaceNext cats total c i)]
+  body ++ (if inFirst then [] else [initial])
+
+def gapsOfPairs : List (Nat × Nat) → List Nat → Option (List Nat)
+  | [], acc => some acc
+  | (l, n) :: rest, acc =>
+    match maybeGap acc l n with
+    | none => none
+    | some acc' => gapsOfPairs rest acc'
+
 /-- the gap computation of cmd_space.cc on the catalogue in disc order -/
 def spaceGaps (cats : List (List Entry)) (total catSectors : Nat) : SpaceRes :=
-  let ncat := cats.length
-  -- position (catalogue, entry) of the file with the lowest start sector
-  let indexed : List (Nat × Nat × Entry) :=
-    (cats.zipIdx).flatMap (fun (l, c) => (l.zipIdx).map (fun (e, i) => (c, i, e)))
-  let firstFile : Option (Nat × Nat × Entry) :=
-    indexed.foldl (fun best x => match best with
-      | none => some x
-      | some b => if x.2.2.startSector < b.2.2.startSector then some x else some b) none
-  let initialGap (gaps : List Nat) : Option (List Nat) :=
-    let following := match firstFile with | some f => f.2.2.startSector | none => total
-    maybeGap gaps catSectors following
-  -- walk catalogues from last to first, entries from last to first
-  let order : List (Nat × Nat × Entry) := (indexed.reverse)
-  let step (st : SpaceRes × Bool) (x : Nat × Nat × Entry) : SpaceRes × Bool :=
-    match st with
-    | (.ok gaps, added) =>
-      let (c, i, e) := x
-      let isFirst := match firstFile with | some f => f.1 == c && f.2.1 == i && f.1 == 0 | none => false
-      let r1 : Option (List Nat) × Bool := if isFirst then (initialGap gaps, true) else (some gaps, added)
-      match r1 with
-      | (none, _) => (.outOfOrder, added)
-      | (some gaps, added) =>
-        -- start_sec_of_next
-        let next : Option Nat :=
-          if i > 0 then ((cats.getD c []).getD (i - 1) default).startSector
-          else if c == ncat - 1 then some total
-          else match (cats.getD (c + 1) []).getLast? with
-            | some e' => some e'.startSector
-            | none => none
-        match next with
-        | none => (.ub, added)
-        | some nx =>
-          match maybeGap gaps (e.lastSector + 1) nx with
-          | none => (.outOfOrder, added)
-          | some g => (.ok g, added)
-    | other => other
-  match order.foldl step (.ok [], false) with
-  | (.ok gaps, added) =>
-    if added then .ok gaps
-    else match initialGap gaps with
-      | some g => .ok g
-      | none => .outOfOrder
-  | (r, _) => r
+  match gapsOfPairs (spacePairs cats total catSectors) [] with
+  | some g => .ok g
+  | none => .outOfOrder
 
 def spaceBlock (sel : VolSel) (gaps : List Nat) : Bytes :=
   strBytes "Gap sizes on disc " ++ sel.toStr ++ strBytes ":\n" ++
@@ -521,7 +526,6 @@ def spaceRun (env : Env) (sels : List VolSel) : CmdRes :=
       | .ok _ v _ =>
         match spaceGaps (v.cat.frags.map (·.entries)) v.cat.totalSectors (dataSectorsReservedForCatalog v.cat.fmt) with
         | .outOfOrder => .threw { out := out, err := true }
-        | .ub => .abort { out := out } "cmd_space: back() on an empty catalogue vector"
         | .ok gaps =>
           let total := gaps.foldl (· + ·) 0 % 4294967296
           let free' :=
@@ -559,7 +563,7 @@ def volumeMapSectors (surface : Nat) (multi : Bool) (label : Option Nat) (v : Vo
     | some l => strBytes "*CAT:" ++ decU surface ++ [l]
     | none => strBytes "catalog"
   let m := (List.range v.cat.catalogSectors).foldl (fun m s => m.set ((s + v.catLoc) % 4294967296) catLabel) m
-  v.cat.entries.foldl (fun m e =>
+  (v.cat.entries.filter (fun e => e.fileLength != 0)).foldl (fun m e =>
     let b := (v.origin + e.startSector) % 4294967296
     let en := (v.origin + e.lastSector + 1) % 4294967296
     (List.range (en - b)).foldl (fun m k => m.insert (b + k) (fileLabel multi label e.directory e.nameStr)) m) m
